@@ -686,7 +686,7 @@ Section Refine.
                   (tick (set_subs_srcs (subs (y_s y)) (upd i more (srcs (y_s y))) (y_s y)),
                    [VSend (SData (s_id x) (CEv (s_op x) (S (s_events x)))) (Some (s_op x))])).
     { unfold step, react. rewrite CL0, ES. reflexivity. }
-    unfold SysInv, commit. cbn [y_s y_c y_rprog y_rcalls y_lost y_gcalls y_hist]. split; [|split].
+    unfold SysInv, commit. cbn [y_s y_c y_rprog y_rcalls y_lost y_gcalls y_calls y_hist]. split; [|split].
     - eapply reachable_step; eauto.
     - rewrite E, (F4 eq_refl), FD.
       assert (K' : CoreInv (y_s y) (gs (y_c y)) false (y_gcalls y) (y_hist y)) by (rewrite <- FD; constructor; auto).
@@ -710,7 +710,7 @@ Section Refine.
     pose proof K as K'. destruct K as [K1 K2 K3 K4 K5].
     destruct (nth_gc _ (y_gcalls y) i x K3 Hx) as (cl & Hc).
     destruct (K5 i g x cl Hg Hx Hc) as [S0 GR]. unfold gor_rel in GR. rewrite Ph in GR. destruct GR as [EN CL].
-    unfold SysInv, commit. cbn [y_s y_c y_rprog y_rcalls y_lost y_gcalls y_hist]. split; [|split].
+    unfold SysInv, commit. cbn [y_s y_c y_rprog y_rcalls y_lost y_gcalls y_calls y_hist]. split; [|split].
     - eapply reachable_step; eauto.
     - rewrite E, (F4 eq_refl). destruct (finished (y_c y)) eqn:FD.
       + (* after HandleClose: stage 1 no longer reacts *)
@@ -780,11 +780,11 @@ Section Refine.
     destruct E as [E1 E2]. rewrite fo_gs in E1.
     pose proof K as K'. destruct K as [K1 K2 K3 K4 K5].
     destruct (finished (y_c y)) eqn:FD.
-    - unfold SysInv, with_cfg. cbn [y_s y_c y_rprog y_rcalls y_lost y_gcalls y_hist]. split; [|split].
+    - unfold SysInv, with_cfg. cbn [y_s y_c y_rprog y_rcalls y_lost y_gcalls y_calls y_hist]. split; [|split].
       + eapply reachable_step; eauto.
       + rewrite E1, E2. exact K'.
       + eapply reader_cfg; [apply F2; exact NR|exact F1|exact D].
-    - unfold SysInv, commit. cbn [y_s y_c y_rprog y_rcalls y_lost y_gcalls y_hist]. split; [|split].
+    - unfold SysInv, commit. cbn [y_s y_c y_rprog y_rcalls y_lost y_gcalls y_calls y_hist]. split; [|split].
       + eapply reachable_step; eauto.
       + rewrite E1, E2. assert (CL0 : closed (y_s y) = false) by congruence.
         destruct (step_end (y_s y) (end_of (y_c y)) CL0) as [C1 C2].
@@ -821,7 +821,7 @@ Section Refine.
     SysInv (with_cfg c' (with_reader rprog' rcalls' lost' y)).
   Proof.
     intros (R & K & D) H N1 N2 N3 N4 D'. destruct (astep_facts cap _ _ _ H) as (F1 & F2 & F3 & F4).
-    unfold SysInv, with_cfg, with_reader. cbn [y_s y_c y_rprog y_rcalls y_lost y_gcalls y_hist]. split; [|split].
+    unfold SysInv, with_cfg, with_reader. cbn [y_s y_c y_rprog y_rcalls y_lost y_gcalls y_calls y_hist]. split; [|split].
     - eapply reachable_step; eauto.
     - rewrite (F3 N1 N2 N3 N4), (F4 N2). exact K.
     - exact D'.
@@ -888,7 +888,7 @@ Section Refine.
         + eapply gor_rel_core; [| | |exact Q2]; [repeat split|unfold stop_gor; rewrite IM; reflexivity|].
           unfold stop_gor. rewrite IM. reflexivity. }
     destruct A1 as (A1 & A2 & A3 & A4).
-    unfold SysInv. cbn [y_s y_c y_rprog y_rcalls y_lost y_gcalls y_hist]. split; [|split].
+    unfold SysInv. cbn [y_s y_c y_rprog y_rcalls y_lost y_gcalls y_calls y_hist]. split; [|split].
     - eapply reachable_arun; eauto.
     - subst c'. cbn [gs finished with_rd with_gs]. rewrite FD.
       assert (S' : s' = fst (step false false false p (y_s y) (LFrame f))) by now rewrite St.
@@ -915,6 +915,9 @@ Section Refine.
 
   Lemma gor_inv_phase fd g x cl : gor_inv fd g x cl -> forall g' cl', g_stops g' = g_stops g -> gor_rel g' x cl' -> gor_inv fd g' x cl'.
   Proof. intros [A _] g' cl' E B. split; [rewrite E; exact A|exact B]. Qed.
+
+  Lemma inv_logged x y : SysInv y -> SysInv (logged x y).
+  Proof. intro V. exact V. Qed.
 
   Theorem ystep_inv y l y' : SysInv y -> ystep cap p y l = Some y' -> SysInv y'.
   Proof.
@@ -1227,3 +1230,266 @@ Proof.
       unfold writer_out, writer_exit, with_rd, with_gs, with_wr, with_ac, with_queue; simpl;
       rewrite ?bc_gs, ?bc_rd, ?fo_rd, ?fo_gs, ?F, ?upd_length; auto.
 Qed.
+
+(** ** global order: nothing but a connection error (a pong) is handed to sendMessage before the first ack
+    [sys_refines] relates the joined system to stage 1 owner by owner; all connection-level frames have one owner
+    (none) and one sender (the read loop), so their order is stage 1's.  R1 ("ack first") is a statement about the
+    order of ALL frames: it holds of the real-time order of the sendMessage calls of the joined system, read loop and
+    subscription goroutines together ([y_calls]). *)
+Definition fr (l : list osend) : list sframe := map fst l.
+
+Section AckFirst.
+  Variable cap : nat.
+  Variable p : proto.
+
+  Definition JInv (y : sys) : Prop :=
+    chk_ack_first p (fr (y_calls y)) = true /\
+    (In SAck (fr (y_calls y)) \/
+     (forallb (pre_ack_ok p) (fr (y_calls y)) = true /\ gs (y_c y) = [] /\ srcs (y_s y) = [] /\
+      chk_ack_first p (fr (y_rprog y)) = true /\ (did_init (y_s y) = true -> In SAck (fr (y_rprog y))))).
+
+  Lemma fr_app a b : fr (a ++ b) = fr a ++ fr b.
+  Proof. apply map_app. Qed.
+  Lemma chk_of_pre l : forallb (pre_ack_ok p) l = true -> chk_ack_first p l = true.
+  Proof.
+    induction l as [|f l IH]; simpl; [reflexivity|]. intro H. apply andb_true_iff in H as [H1 H2].
+    destruct f; simpl in *; try discriminate; rewrite ?H1; auto.
+  Qed.
+
+  (** one more call *)
+  Lemma J_call y x calls' :
+    calls' = y_calls y ++ [x] ->
+    chk_ack_first p (fr (y_calls y)) = true ->
+    (In SAck (fr (y_calls y)) \/ fst x = SAck \/ (forallb (pre_ack_ok p) (fr (y_calls y)) = true /\ pre_ack_ok p (fst x) = true)) ->
+    chk_ack_first p (fr calls') = true /\
+    (In SAck (fr calls') \/ forallb (pre_ack_ok p) (fr calls') = true).
+  Proof.
+    intros -> C [A|[A|[A B]]]; rewrite fr_app; simpl.
+    - split; [now apply chk_ack_first_after|left; apply in_or_app; now left].
+    - split; [|left; apply in_or_app; right; left; exact A].
+      rewrite A. clear - C. induction (fr (y_calls y)) as [|f l IH]; simpl in *; [reflexivity|].
+      destruct f; simpl in *; auto; apply andb_true_iff in C as [C1 C2]; rewrite C1; simpl; auto.
+    - split; [|right; rewrite forallb_app, A; simpl; now rewrite B].
+      apply chk_of_pre. rewrite forallb_app, A. simpl. now rewrite B.
+  Qed.
+
+  Lemma stop_indices_nil ns : stop_indices [] ns = [].
+  Proof. induction ns as [|n ns IH]; simpl; auto. Qed.
+
+  Lemma did_init_end s e : did_init (fst (step false false false p s (LEnd e))) = did_init s.
+  Proof.
+    unfold step, react. destruct (closed s); [reflexivity|].
+    destruct (WsModel.begin_closing (end_code e) s) as [s2 o2] eqn:B.
+    destruct (begin_closing_neutral _ _ _ _ B) as (_ & _ & _ & A & _). unfold handle_close.
+    destruct (stop_all (subs s2) (srcs s2)). simpl. exact A.
+  Qed.
+
+  Lemma no_gor_step c a c' i : gs c = [] -> astep cap true c a = Some c' ->
+    (a = EEmit i \/ a = ESrcEnd i \/ a = IGCancel i \/ a = IGEnd i \/ a = IGDataOk i \/ a = IGDataFail i \/
+     a = IGCompleteOk i \/ a = IGCompleteFail i) -> False.
+  Proof.
+    intros G H A. destruct A as [->|[->|[->|[->|[->|[->|[->| ->]]]]]]]; simpl in H;
+      try (destruct (can_enqueue cap c); [|discriminate]); unfold can_give_up in H; simpl in H;
+      try (destruct (writer_done c); [|discriminate]);
+      unfold on_gor in H; rewrite G in H; destruct i; discriminate.
+  Qed.
+
+  Theorem ystep_J y l y' : SysInv cap p y -> JInv y -> ystep cap p y l = Some y' -> JInv y'.
+  Proof.
+    intros V [C J] H. pose proof V as (R & K & D). pose proof (reachable_inv _ _ _ R) as AI.
+    destruct K as [K1 K2 K3 K4 K5]. destruct D as [D1 D2 D3].
+    (* once an ack has been handed over, every later call keeps R1 *)
+    assert (Left : In SAck (fr (y_calls y)) -> forall more, JInv {| y_s := y_s y'; y_c := y_c y'; y_rprog := y_rprog y'; y_rcalls := y_rcalls y';
+                      y_lost := y_lost y'; y_gcalls := y_gcalls y'; y_calls := y_calls y ++ more; y_hist := y_hist y' |}).
+    { intros A more. split; simpl; rewrite fr_app; [now apply chk_ack_first_after|left; apply in_or_app; now left]. }
+    destruct l as [f|i|i| | | | |a].
+    - (* a client frame *)
+      cbn [ystep] in H. destruct (step false false false p (y_s y) (LFrame f)) as [s' o] eqn:St.
+      match type of H with context [arun ?a ?b ?c ?d] => destruct (arun a b c d) as [c'|] eqn:Ar; [|discriminate] end.
+      injection H as <-. destruct J as [A|(A & G & Sr & Cp & Di)].
+      + split; [exact C|left; exact A].
+      + destruct (arun_frame_inv _ _ _ _ _ Ar) as [RD Gd]. rewrite RD in D1.
+        assert (FD : finished (y_c y) = false).
+        { destruct (finished (y_c y)) eqn:FD; [|reflexivity]. destruct (j_fin _ AI FD) as [X _]. congruence. }
+        assert (DI : did_init (y_s y) = false).
+        { destruct (did_init (y_s y)); [|reflexivity]. rewrite D1 in Di. destruct (Di eq_refl). }
+        assert (CL0 : closed (y_s y) = false) by congruence.
+        unfold step, react in St. rewrite CL0 in St. destruct (handle false false p (y_s y) f) as [s2 o2] eqn:Hd.
+        injection St as <- <-. rewrite Sr, stop_indices_nil in Ar. change (srcs (tick s2)) with (srcs s2) in *.
+        change (did_init (tick s2)) with (did_init s2).
+        rewrite (arun_frame cap [] _ _ _ _ RD Gd) in Ar. injection Ar as <-. cbn [gs with_rd with_gs stop_all_at fold_left].
+        rewrite G. cbn [y_s y_c y_rprog y_calls]. split; [exact C|]. right. split; [exact A|].
+        cbn [y_s y_c y_rprog y_calls gs with_rd with_gs]. change (srcs (tick s2)) with (srcs s2). change (did_init (tick s2)) with (did_init s2).
+        destruct (handle_shape _ _ _ _ _ _ _ Hd) as [H1 H2 H3 H4 H5|H1 H2 H3 H4 H5 H6|bc H1 H2 H3 H4 H5 H6|H1 H2 H3 H4 H5|id d H1 H2 H3|id H1 H2 H3].
+        * (* nothing sent *) rewrite H3, Sr, H1, DI. destruct H4 as [->|(c0 & ->)]; simpl; repeat split; auto; discriminate.
+        * (* accepted init *) rewrite H3, Sr. subst o2. destruct p; simpl; repeat split; auto.
+        * (* refused init *) rewrite H3, Sr, H1, DI. subst o2. destruct H4 as [->|(c0 & ->)]; destruct p; simpl; repeat split; auto; discriminate.
+        * (* ping *) rewrite H3, Sr, H1, DI. subst o2. destruct p; [destruct f as [|[] ? ?]; discriminate|]. simpl. repeat split; auto; discriminate.
+        * congruence.
+        * congruence.
+    - (* a goroutine takes an event *)
+      cbn [ystep] in H. destruct (astep cap true (y_c y) (EEmit i)) as [c'|] eqn:A; [|discriminate].
+      destruct (nth_error (gs (y_c y)) i) as [g|] eqn:Hg; [|discriminate]. destruct (op_of i y); [|discriminate].
+      destruct (g_cancelled g); [discriminate|]. injection H as <-.
+      destruct J as [B|(_ & G & _)]; [|rewrite G in Hg; destruct i; discriminate].
+      split; [exact C|left; exact B].
+    - cbn [ystep] in H. destruct (astep cap true (y_c y) (ESrcEnd i)) as [c'|] eqn:A; [|discriminate]. injection H as <-.
+      destruct J as [B|(_ & G & _)]; [split; [exact C|left; exact B]|]. exfalso. eapply (no_gor_step _ _ _ i G A); auto.
+    - cbn [ystep] in H. destruct (astep cap true (y_c y) EClientClose) as [c'|] eqn:A; [|discriminate]. injection H as <-.
+      destruct (astep_facts cap _ _ _ A) as (_ & _ & F3 & _). split; [exact C|]. destruct J as [B|(B1 & G & B3)]; [now left|right].
+      simpl. rewrite F3 by (reflexivity || discriminate). auto.
+    - cbn [ystep] in H. destruct (astep cap true (y_c y) EDrop) as [c'|] eqn:A; [|discriminate]. injection H as <-.
+      destruct (astep_facts cap _ _ _ A) as (_ & _ & F3 & _). split; [exact C|]. destruct J as [B|(B1 & G & B3)]; [now left|right].
+      simpl. rewrite F3 by (reflexivity || discriminate). auto.
+    - cbn [ystep] in H. destruct (astep cap true (y_c y) EAppClose) as [c'|] eqn:A; [|discriminate]. injection H as <-.
+      destruct (astep_facts cap _ _ _ A) as (_ & _ & F3 & _). split; [exact C|]. destruct J as [B|(B1 & G & B3)]; [now left|right].
+      simpl. rewrite F3 by (reflexivity || discriminate). auto.
+    - cbn [ystep] in H. destruct (astep cap true (y_c y) ETickFail) as [c'|] eqn:A; [|discriminate]. injection H as <-.
+      destruct (astep_facts cap _ _ _ A) as (_ & _ & F3 & _). split; [exact C|]. destruct J as [B|(B1 & G & B3)]; [now left|right].
+      simpl. rewrite F3 by (reflexivity || discriminate). auto.
+    - (* internal steps *)
+      cbn [ystep] in H. destruct (internal a) eqn:Int; [|discriminate]. cbn [negb] in H.
+      destruct (astep cap true (y_c y) a) as [c'|] eqn:A; [|discriminate].
+      destruct (astep_facts cap _ _ _ A) as (_ & _ & F3 & _).
+      (* steps that hand nothing over and touch no goroutine *)
+      assert (Plain : forall y0, y_calls y0 = y_calls y -> y_s y0 = y_s y -> y_rprog y0 = y_rprog y -> gs (y_c y0) = gs (y_c y) -> JInv y0).
+      { intros y0 E1 E2 E3 E4. unfold JInv. rewrite E1, E2, E3, E4. split; [exact C|exact J]. }
+      (* a goroutine step: there is a goroutine, so an ack has been handed over *)
+      assert (Gor : forall i, (a = IGCancel i \/ a = IGEnd i \/ a = IGDataOk i \/ a = IGDataFail i \/ a = IGCompleteOk i \/ a = IGCompleteFail i) ->
+                    In SAck (fr (y_calls y))).
+      { intros i Ha. destruct J as [B|(_ & G & _)]; [exact B|]. exfalso. eapply (no_gor_step _ _ _ i G A). tauto. }
+      destruct a; try discriminate Int.
+      + injection H as <-. apply Plain; auto. simpl. apply F3; reflexivity || discriminate.
+      + (* IRSendOk *)
+        destruct (y_rprog y) as [|x r] eqn:Er; [discriminate|]. injection H as <-.
+        assert (G' : gs c' = gs (y_c y)) by (apply F3; reflexivity || discriminate).
+        destruct J as [B|(B1 & G & Sr & Cp & Di)].
+        * unfold JInv, logged. cbn [y_s y_c y_rprog y_calls with_cfg with_reader]. rewrite fr_app. split; [now apply chk_ack_first_after|].
+          left. apply in_or_app. now left.
+        * simpl in Cp. destruct (sframe_eqb (fst x) SAck) eqn:Q.
+          -- apply sframe_eqb_eq in Q. destruct (J_call y x _ eq_refl C (or_intror (or_introl Q))) as [X1 X2].
+             unfold JInv, logged. cbn [y_s y_c y_rprog y_calls with_cfg with_reader]. split; [exact X1|]. left.
+             rewrite fr_app. apply in_or_app. right. left. exact Q.
+          -- assert (Px : pre_ack_ok p (fst x) = true /\ chk_ack_first p (fr r) = true).
+             { destruct (fst x); simpl in *; try discriminate; try (split; [reflexivity|exact Cp]); try (apply andb_true_iff in Cp; tauto). }
+             destruct Px as [Px Cr].
+             destruct (J_call y x _ eq_refl C (or_intror (or_intror (conj B1 Px)))) as [X1 [X2|X2]];
+               unfold JInv, logged; cbn [y_s y_c y_rprog y_calls with_cfg with_reader]; (split; [exact X1|]); [now left|].
+             right. rewrite G', G. repeat split; auto. intro I1. destruct (Di I1) as [E|E]; [|exact E].
+             rewrite E in Q. discriminate.
+      + (* IRSendFail *)
+        destruct (y_rprog y) as [|x r] eqn:Er; [discriminate|]. injection H as <-.
+        assert (G' : gs c' = gs (y_c y)) by (apply F3; reflexivity || discriminate).
+        destruct J as [B|(B1 & G & Sr & Cp & Di)].
+        * unfold JInv, logged. destruct (send_kind x); cbn [y_s y_c y_rprog y_calls with_cfg with_reader]; rewrite fr_app;
+            (split; [now apply chk_ack_first_after|left; apply in_or_app; now left]).
+        * simpl in Cp. destruct (sframe_eqb (fst x) SAck) eqn:Q.
+          -- apply sframe_eqb_eq in Q. destruct (J_call y x _ eq_refl C (or_intror (or_introl Q))) as [X1 X2].
+             unfold JInv, logged. destruct (send_kind x); cbn [y_s y_c y_rprog y_calls with_cfg with_reader]; (split; [exact X1|]); left;
+               rewrite fr_app; apply in_or_app; right; left; exact Q.
+          -- assert (Px : pre_ack_ok p (fst x) = true /\ chk_ack_first p (fr r) = true).
+             { destruct (fst x); simpl in *; try discriminate; try (split; [reflexivity|exact Cp]); try (apply andb_true_iff in Cp; tauto). }
+             destruct Px as [Px Cr].
+             assert (NK : send_kind x = RSend).
+             { unfold send_kind. destruct (fst x); try reflexivity; simpl in Px; discriminate. }
+             destruct (J_call y x _ eq_refl C (or_intror (or_intror (conj B1 Px)))) as [X1 [X2|X2]];
+               unfold JInv, logged; rewrite NK; cbn [y_s y_c y_rprog y_calls with_cfg with_reader]; (split; [exact X1|]); [now left|].
+             right. rewrite G', G. repeat split; auto. intro I1. destruct (Di I1) as [E|E]; [|exact E].
+             rewrite E in Q. discriminate.
+      + injection H as <-. apply Plain; auto. simpl. apply F3; reflexivity || discriminate.
+      + discriminate.
+      + discriminate.
+      + injection H as <-. apply Plain; auto. simpl. apply F3; reflexivity || discriminate.
+      + injection H as <-. apply Plain; auto. simpl. apply F3; reflexivity || discriminate.
+      + (* IGCancel *) injection H as <-. split; [exact C|left; apply (Gor i); auto].
+      + (* IGEnd *) destruct (op_of i y); [|discriminate]. injection H as <-. split; [exact C|left; apply (Gor i); auto].
+      + destruct (op_of i y); [|discriminate]. injection H as <-. apply (Left (Gor i ltac:(auto)) [_]).
+      + destruct (op_of i y); [|discriminate]. injection H as <-. apply (Left (Gor i ltac:(auto)) [_]).
+      + destruct (op_of i y); [|discriminate]. injection H as <-. apply (Left (Gor i ltac:(auto 7)) [_]).
+      + destruct (op_of i y); [|discriminate]. injection H as <-. apply (Left (Gor i ltac:(auto 7)) [_]).
+      + injection H as <-. apply Plain; auto. simpl. apply F3; reflexivity || discriminate.
+      + injection H as <-. apply Plain; auto. simpl. apply F3; reflexivity || discriminate.
+      + injection H as <-. apply Plain; auto. simpl. apply F3; reflexivity || discriminate.
+      + injection H as <-. apply Plain; auto. simpl. apply F3; reflexivity || discriminate.
+      + injection H as <-. apply Plain; auto. simpl. apply F3; reflexivity || discriminate.
+      + injection H as <-. apply Plain; auto. simpl. apply F3; reflexivity || discriminate.
+      + injection H as <-. apply Plain; auto. simpl. apply F3; reflexivity || discriminate.
+      + injection H as <-. apply Plain; auto. simpl. apply F3; reflexivity || discriminate.
+      + (* IWFinish *)
+        assert (E : gs c' = gs (finish_once (y_c y))).
+        { simpl in A. destruct (wr (y_c y)); try discriminate. destruct (reader_done (y_c y)); [|discriminate]. now injection A as <-. }
+        rewrite fo_gs in E. destruct J as [B|(B1 & G & Sr & Cp & Di)]; [destruct (finished (y_c y)); injection H as <-; (split; [exact C|now left])|].
+        rewrite G in E. assert (E' : gs c' = []) by (destruct (finished (y_c y)); exact E).
+        destruct (finished (y_c y)) eqn:FD; injection H as <-; (split; [exact C|]); right; simpl; rewrite E'; repeat split; auto.
+        * assert (CL0 : closed (y_s y) = false) by congruence. destruct (step_end p (y_s y) (end_of (y_c y)) CL0) as [_ SC].
+          apply same_core_length in SC. rewrite Sr in SC. destruct (srcs (fst (step false false false p (y_s y) (LEnd (end_of (y_c y)))))); [reflexivity|discriminate].
+        * rewrite did_init_end. exact Di.
+      + (* IAFinish *)
+        assert (E : gs c' = gs (finish_once (y_c y))).
+        { simpl in A. destruct (ac (y_c y)); try discriminate. destruct (reader_done (y_c y) && writer_done (y_c y)); [|discriminate]. now injection A as <-. }
+        rewrite fo_gs in E. destruct J as [B|(B1 & G & Sr & Cp & Di)]; [destruct (finished (y_c y)); injection H as <-; (split; [exact C|now left])|].
+        rewrite G in E. assert (E' : gs c' = []) by (destruct (finished (y_c y)); exact E).
+        destruct (finished (y_c y)) eqn:FD; injection H as <-; (split; [exact C|]); right; simpl; rewrite E'; repeat split; auto.
+        * assert (CL0 : closed (y_s y) = false) by congruence. destruct (step_end p (y_s y) (end_of (y_c y)) CL0) as [_ SC].
+          apply same_core_length in SC. rewrite Sr in SC. destruct (srcs (fst (step false false false p (y_s y) (LEnd (end_of (y_c y)))))); [reflexivity|discriminate].
+        * rewrite did_init_end. exact Di.
+  Qed.
+End AckFirst.
+
+(** ** the theorems *)
+Section GlobalOrder.
+  Variable cap : nat.
+  Variable p : proto.
+
+  Lemma yrun_J ls : forall y y', SysInv cap p y -> JInv p y -> yrun cap p y ls = Some y' -> JInv p y'.
+  Proof.
+    induction ls as [|l ls IH]; intros y y' V J H; simpl in H; [now injection H as <-|].
+    destruct (ystep cap p y l) as [y1|] eqn:E; [|discriminate].
+    eapply (IH y1); [eapply ystep_inv; eauto|eapply ystep_J; eauto|exact H].
+  Qed.
+
+  (** R1 in the real-time order of all sendMessage calls (read loop and goroutines together) *)
+  Theorem sys_ack_first y : yreach cap p y -> chk_ack_first p (fr (y_calls y)) = true.
+  Proof.
+    intros (ls & H). assert (J0 : JInv p init_sys) by (split; [reflexivity|right; simpl; repeat split; auto; discriminate]).
+    destruct (yrun_J ls _ _ (init_sys_inv cap p) J0 H) as [C _]. exact C.
+  Qed.
+
+  (** the connection-level frames among all calls are exactly the read loop's *)
+  Lemma ystep_connlog y l y' :
+    osends_to None (y_calls y) = osends_to None (y_rcalls y) -> ystep cap p y l = Some y' ->
+    osends_to None (y_calls y') = osends_to None (y_rcalls y').
+  Proof.
+    intros E H. destruct l as [f|i|i| | | | |a]; cbn [ystep] in H.
+    - destruct (step false false false p (y_s y) (LFrame f)) as [s' o].
+      match type of H with context [arun ?a ?b ?c ?d] => destruct (arun a b c d); [|discriminate] end. injection H as <-. exact E.
+    - destruct (astep cap true (y_c y) (EEmit i)); [|discriminate]. destruct (nth_error (gs (y_c y)) i) as [g|]; [|discriminate].
+      destruct (op_of i y); [|discriminate]. destruct (g_cancelled g); [discriminate|]. injection H as <-. exact E.
+    - destruct (astep cap true (y_c y) (ESrcEnd i)); [|discriminate]. injection H as <-. exact E.
+    - destruct (astep cap true (y_c y) EClientClose); [|discriminate]. injection H as <-. exact E.
+    - destruct (astep cap true (y_c y) EDrop); [|discriminate]. injection H as <-. exact E.
+    - destruct (astep cap true (y_c y) EAppClose); [|discriminate]. injection H as <-. exact E.
+    - destruct (astep cap true (y_c y) ETickFail); [|discriminate]. injection H as <-. exact E.
+    - destruct (internal a); [|discriminate]. cbn [negb] in H. destruct (astep cap true (y_c y) a) as [c'|]; [|discriminate].
+      destruct a; try discriminate H; unfold op_of in H;
+        repeat match type of H with
+               | context [match ?x with _ => _ end] => destruct x; try discriminate H
+               | context [if ?x then _ else _] => destruct x; try discriminate H
+               end; injection H as <-; simpl; rewrite ?osends_to_app, ?E; simpl; rewrite ?app_nil_r; auto.
+  Qed.
+
+  (** global order of the connection-level frames (ack, ka, connection_error, pong): in the order of the calls they
+      are, with what the read loop still has in hand, exactly the connection-level frames of stage 1's trace *)
+  Theorem sys_conn_frames_in_order y : yreach cap p y ->
+    osends_to None (y_calls y) ++ osends_to None (y_rprog y ++ y_lost y) = sent_to None (trace false false false p (y_hist y)).
+  Proof.
+    intros Re. destruct (sys_refines cap p y Re) as (_ & _ & _ & _ & _ & _ & D2 & _).
+    rewrite <- (D2 None eq_refl), !osends_to_app. f_equal.
+    destruct Re as (ls & H). clear D2.
+    assert (G : forall ls y0 y1, osends_to None (y_calls y0) = osends_to None (y_rcalls y0) -> yrun cap p y0 ls = Some y1 ->
+                osends_to None (y_calls y1) = osends_to None (y_rcalls y1)).
+    { induction ls0 as [|l ls0 IH]; intros y0 y1 E R; simpl in R; [now injection R as <-|].
+      destruct (ystep cap p y0 l) as [y2|] eqn:S; [|discriminate]. eapply IH; [|exact R]. eapply ystep_connlog; eauto. }
+    exact (G ls init_sys y eq_refl H).
+  Qed.
+End GlobalOrder.
